@@ -64,7 +64,7 @@ ExtractDir == ExtractKind("dir")
 ExtractReg == ExtractKind("reg")
 ExtractSym == ExtractKind("sym")
 ExtractHard == ExtractKind("hard")
-ExtractIgnored == ExtractKind("fifo")                       \* header types without a case in the switch
+ExtractIgnored == ExtractKind("fifo") \/ ExtractKind("chr")                       \* header types without a case in the switch
 ExtractEnd == /\ pc = "extract" /\ todo = <<>> /\ pc' = "done"
               /\ UNCHANGED <<scn, fs, base, todo, plan, touched>>
 
